@@ -645,7 +645,7 @@ async def _activity(env, ctx, spec):
                 info['ends'].append((ctx.name, kind, ref, id(exc), env.sess.now(),
                                      exc_name(exc) if kind == 'failed' else kind))
                 if kind == 'failed' and info.get('left') is not None \
-                        and not isinstance(exc, SUPPRESSED):
+                        and not isinstance(exc, SUPPRESSED + tuple(info.get('extra_suppress', ()))):
                     # C05: whatever fails in a block is reported by the block - a child whose
                     # failure comes after the block has been left is reported by nobody
                     env.sess.violation(
@@ -883,10 +883,21 @@ async def op_transfer(env, ctx, step):
     await (await prepared(env, step, lambda: pipe.transfer(step['v'], step.get('limit'))))
 
 
+class LenientScope(Scope):
+    """ignores failures of one more type, passes on failures of another one unwrapped"""
+    EXTRA_SUPPRESS = (ProgStream,)
+    EXTRA_PROMOTE = (ProgUnavailable,)
+    SUPPRESS_CONCURRENT = Scope.SUPPRESS_CONCURRENT + EXTRA_SUPPRESS
+    PROMOTE_CONCURRENT = Scope.PROMOTE_CONCURRENT + EXTRA_PROMOTE
+
+
 async def op_scope(env, ctx, step):
     notif = step.get('n')
     if notif is not None:
         scope = until(make_notif(env, notif))
+    elif step.get('custom'):
+        # a scope class of the program's own that extends the two documented class attributes
+        scope = LenientScope()
     else:
         scope = Scope()
     sid = step.get('id')
@@ -895,6 +906,8 @@ async def op_scope(env, ctx, step):
     info = env.scope_inst[key] = {
         'sid': sid, 'owner': ctx.name, 'children': [], 'ends': [], 'until': notif is not None,
         'entered': env.sess.now(), 'left': None, 'body': None,
+        'extra_suppress': LenientScope.EXTRA_SUPPRESS if isinstance(scope, LenientScope) else (),
+        'extra_promote': LenientScope.EXTRA_PROMOTE if isinstance(scope, LenientScope) else (),
     }
     if sid in env.referenced_scopes:
         env.scopes[sid] = (scope, key)
@@ -1036,14 +1049,16 @@ def scope_exit_monitor(env, ctx, key, scope, body_exc, outer_exc):
                            'body nor children failed' % (key, closed))
     content = []
     privileged = []
+    suppressed_types = SUPPRESSED + tuple(info.get('extra_suppress', ()))
+    privileged_types = PRIVILEGED + tuple(info.get('extra_promote', ()))
     for end in failures:
         exc = end[2]() if end[2] is not None else None
         if exc is None:
             content = None      # object gone: cannot compare identities (does not happen)
             break
-        if isinstance(exc, SUPPRESSED):
+        if isinstance(exc, suppressed_types):
             continue
-        if isinstance(exc, PRIVILEGED):
+        if isinstance(exc, privileged_types):
             privileged.append(exc)
         content.append(exc)
     sess.stats['c05_blocks_checked'] += 1
@@ -1109,7 +1124,7 @@ def scope_exit_monitor(env, ctx, key, scope, body_exc, outer_exc):
         else:
             # (a privileged failure of a child takes precedence over a regular exception of
             # the body; between two privileged ones the statement does not choose)
-            allowed = privileged if privileged and not isinstance(body_exc, PRIVILEGED) \
+            allowed = privileged if privileged and not isinstance(body_exc, privileged_types) \
                 else [body_exc] + privileged
             if not any(outer_exc is exc for exc in allowed):
                 sess.violation('c05:body-exception-replaced',
@@ -1117,7 +1132,7 @@ def scope_exit_monitor(env, ctx, key, scope, body_exc, outer_exc):
                                % (key, describe(body_exc), describe(outer_exc)))
         # promptness: the block ends at the virtual time of the first failure
         times = [end[4] for end in failures
-                 if end[2] is not None and not isinstance(end[2](), SUPPRESSED)]
+                 if end[2] is not None and not isinstance(end[2](), suppressed_types)]
         if not own and not isinstance(body_exc, (Interrupt, GeneratorExit)):
             times.append(info['body'][0])
         if foreign:
